@@ -109,7 +109,7 @@ PROPS["C04"] = {
 
 
 # properties whose check is not green yet are not claimed in MANIFEST.json
-NOT_YET = ["C03", "C06", "C09"]
+NOT_YET = ["C03", "C09"]
 
 
 def select(pid, tier, seed):
@@ -309,7 +309,7 @@ PROPS["C09"] = {
     "harnesses": [H("c09_derive::n%d::%s" % (n, v), tier=("both" if (n == 5 or (v == "p1_exit" and n <= 5)) else "thorough"), cfg=(["vp_thorough"] if n == 6 else []), bounds="%s, every well-formed token buffer of exactly %d bytes" % (d, n), timeout=3000, mem=8)
                   for n in range(0, 7)
                   for (v, d) in [("p1_exit", "unit variant"),
-                                 ("p1_led", "positional u8 + Option<u8> option (-l/--lv) + flag (-v/--verbose)"),
+                                 ("p1_led", "positional u8 + Option<u8> option (-l/--lv) + flag with generated short and explicit long (-v/--loud)"),
                                  ("p1_read", "renamed command, &str positional + i8 positional with default_value"),
                                  ("p1_cfg", "u8 option with default_value_t (--n), required &str option with value_name (-k), non-ASCII flag"),
                                  ("p2_base", "named variant with a flag and a required sub-command; sub-command name is the last token"),
